@@ -13,3 +13,41 @@ claim("C04", "Lean 4 proofs of point evaluation, classical/Kleene tables and dua
       "all intervals/weights/biases). Tied to /repo by exhaustive enumeration of formulae up to depth 2 on three-valued inputs (every "
       "sub-formula's state() vs the Kleene table vs the Lean model) and random dual pairs in both directions.",
       NOTE_COMMON + " Nested downward duality beyond one level is covered by correspondence only.", "DESIGN.md §6 C04")
+claim("C05", "Lean 4 proof that every engine operation is a sequence of tightening writes (induction over arbitrary call sequences) + snapshot correspondence",
+      "Theorems C05_monotone / C05_steps / C05_infer / C05_call / C05_pass: for EVERY KB (no hypothesis on weights, shape or alpha) and every "
+      "state in [0,1], no sequence of node-level calls (incl. index restrictions), passes over any schedule or infer runs lowers a lower bound "
+      "or raises an upper bound. Tied to /repo by exact snapshots after every public call on random programs with consistent and contradictory "
+      "data; first-order and quantifier programs are compared with the Lean first-order model and judged by the same snapshot oracle "
+      "(bounds and grounding sets).",
+      NOTE_COMMON + " The monotonicity theorem is proved for the propositional engine; for first-order tables and quantifiers the claim rests on "
+      "correspondence with the executable model plus the implementation-side oracle.", "DESIGN.md §6 C05")
+claim("C06", "Lean 4 proofs of termination (potential argument) and genuine fixpoint + differential correspondence of sweep counts",
+      "Theorems C06_terminates / _two_N / _exists (infer converges within fuel > (Phi+N)/eps sweeps for every KB, schedule and eps > 0), "
+      "C06_sweep_zero_fix / C06_fixpoint / C06_fixpoint_grid (a converged infer leaves every upward and downward step of every scheduled formula "
+      "the identity, given reported<=eps => reported=0, which C06_grid derives from a grid coarser than eps: the formal content of 'exactly "
+      "representable bounds'), C06_infer_again (a second infer reports 0, one sweep, no change). Tied to /repo: infer() then every pass and "
+      "node-level call then infer() again, sweep counts and amounts equal to the model's; first-order programs likewise against the first-order model.",
+      NOTE_COMMON + " Termination/fixpoint theorems are proved for the propositional engine; the first-order clause (tables grow; convergence also "
+      "requires that no grounding was created) rests on correspondence with the executable first-order model and the extra-sweep oracle.", "DESIGN.md §6 C06")
+claim("C07", "Lean 4 proof of confluence by chaotic iteration over monotone inflationary un-arrested steps + multi-order differential runs",
+      "Theorems C07_confluent (two arbitrary step lists that both end in an arrest-free common fixpoint end in the same state), "
+      "C07_contradiction_invariant / C07_contradiction_iff (if one exhaustive schedule ends contradiction-free no schedule ever shows one; "
+      "quiescent runs agree on whether a contradiction arrests), C07_infer_vs_schedule / C07_infer_vs_infer (infer equals any fair node-level "
+      "schedule and any other sweep order). All node kinds, all weights >= 0, alpha <= 1. Tied to /repo: every KB is run by infer(), by infer() "
+      "after permuting add_knowledge/add_data order and by 3 random fair node-level schedules until quiescent, all five replayed in the model.",
+      NOTE_COMMON + " infer is related to schedules for threshold eps <= 0 (exact fixpoints); with the code's 1e-7 this is the dyadic regime "
+      "of C06_grid. Values that leave the exactly representable range are counted as precision_skipped, not judged.", "DESIGN.md §6 C07")
+claim("C13", "Lean 4 proof that reported amount = 0 iff state unchanged for every step list (Writes relation) + per-call differential correspondence",
+      "Theorems C13_aggregate_zero_iff, C13_step, C13_steps, C13_call, C13_pass, C13_infer, C13_second_pass_zero, C13_amount_eq_potential_drop: "
+      "for EVERY KB and every in-range state, any list of primitive steps -- hence every public call incl. Iff/XOr composites, every pass and every "
+      "infer -- reports 0 exactly when it changed nothing; amounts are non-negative and equal the drop of the total interval width. Tied to /repo "
+      "by comparing the returned amount of every node- and model-level call with before/after snapshots and with the model's amount; quantifier "
+      "and first-order calls against the first-order model.",
+      NOTE_COMMON + " The model follows the repaired code (Iff/XOr add their inner amounts); the pre-repair behaviour is kept as a corpus witness.", "DESIGN.md §6 C13")
+claim("C17", "Lean 4 proofs of range invariant, contradiction characterisation and totality of state() + exhaustive grid correspondence",
+      "Theorems C17_range (every reachable bound in [0,1] for every KB and call sequence), C17_contradiction_iff / _alpha_one / C17_hasContra_iff "
+      "(contradiction <=> crossed bounds outside the same-classical-region tolerance; has_contradiction <=> some formula), C17_state_total / "
+      "C17_state_cases / C17_state_* (for every alpha > 1/2 every pair of bounds maps to exactly one of the documented states, never the fall-through "
+      "sentinel; all eight rows characterised). Tied to /repo by an exhaustive grid of (alpha, L, U) containing every region boundary and its "
+      "neighbours through Proposition.add_data/state/is_contradiction/has_contradiction, and a range check of every dump of random programs.",
+      NOTE_COMMON + " The code has eight states (Fact x4, _Fact x4); 'nine documented states' is read as the documented state set.", "DESIGN.md §6 C17")
